@@ -57,11 +57,14 @@ def verify (signMode : Bool) (f : Facts) (now : Nat) : Option Bytes :=
   else if !timeOk f now then none
   else some f.sub
 
+/-- lifetime of a minted user token (`time.Minute * 5`) in seconds -/
+def lifetime : Nat := 300
+
 /-- facts of a token minted by `GenerateUserToken` at `now` for user `u` in the given mode -/
 def mint (signMode : Bool) (now : Nat) (u : Bytes) : Facts :=
   { jwe5 := true, decOk := true, ctyJWT := true,
     inner := if signMode then .jws true true else .claims,
-    iss := Cookie.issuer, exp := some (now + 300), nbf := none, iat := none, sub := u }
+    iss := Cookie.issuer, exp := some (now + lifetime), nbf := none, iat := none, sub := u }
 
 /-- `web.TokenInfo`: status code and whether claims are disclosed -/
 def tokenInfo (isGet : Bool) (param : Option Bytes) (result : Bytes → Option Bytes) : Nat × Option Bytes :=
